@@ -307,6 +307,32 @@ def w_asm_mut(run, st_, k, item):
     runner.hyp_drive(run, st_, mutated_lines(rendered), orc, n, run.seed * 1000 + 500 + k, to_case=lambda x: {"asm": x[1], "att": int(x[0])}, shrink=True)
 
 
+def w_asm_struct(run, st_, k, n):
+    """structured lines (vlib/asmgen.py): well-formed operands with boundary immediates and displacements, both syntaxes"""
+    from vlib import asmgen
+
+    def orc(sp):
+        res = None
+        for att in (False, True):
+            line = asmgen.att(sp) if att else asmgen.intel(sp, style=k % 2)
+            if line is None:
+                continue
+            r = check_asm(att, line, st_)
+            st_.nt(("s", att, line))
+            if r and res is None:
+                res = (r[0][0], r[0][1] + "  [%s]" % line, {"asm": line, "att": int(att)})
+        return res
+
+    def orc2(sp):
+        r = orc(sp)
+        if r is None:
+            return None
+        last[0] = r[2]
+        return (r[0], r[1])
+    last = [None]
+    runner.hyp_drive(run, st_, asmgen.spec(), orc2, n, run.seed * 1000 + 700 + k, to_case=lambda sp: last[0] or {"asm": asmgen.intel(sp), "att": 0}, shrink=True)
+
+
 def rendered_lines(cases):
     out = []
     for b in cases:
@@ -337,6 +363,7 @@ def main(run):
     with runner.quiet():
         rend = rendered_lines(sorted(set(x86space.cases("quick", run.seed, thin=23)))[:6000])
     runner.pmap(run, w_asm_mut, [(run.pick(2500, 40000), rend)] * 16)
+    runner.pmap(run, w_asm_struct, [run.pick(1500, 30000)] * 16)
 
 
 def replay(run, case):
